@@ -17,14 +17,14 @@ from datetime import timedelta
 from typing import Any
 
 from detsim import env, gen, minimize, rng, runner
-from detsim.observe import exc_token, observe_chart, observe_track, scrub, us
+from detsim.observe import exc_token, hashes, observe_chart, observe_track, scrub, us
 from detsim.runner import Discard
 from detsim.sched import HarnessError, Scheduler
 
 PROP = "C19"
 LEVEL = "exploration"
-RUNS = {"quick": 3200, "thorough": 60000}
-BUDGET_S = {"quick": 90, "thorough": 1500}
+RUNS = {"quick": 2400, "thorough": 60000}
+BUDGET_S = {"quick": 150, "thorough": 1500}
 RULE = ("each evaluation is one simulated run: one shared parsed chart, 1-4 reader clients, "
         "3-25 read-only operations each, one seeded schedule. Distinct = distinct plan digest; "
         "non-trivial = >= 3 operations including >= 1 on an absent instrument/difficulty or a "
@@ -557,6 +557,9 @@ def execute(plan: dict[str, Any]) -> dict[str, Any]:
                         if not eq:
                             vio("twin-unequal", op, "-",
                                 f"client {ci} op {k}: after {op} chart != twin")
+                        elif hashes(chart) != hashes(twin):
+                            vio("twin-unequal", op, "hash",
+                                f"client {ci} op {k}: after {op} events of chart and twin hash differently")
 
         return body
 
